@@ -273,7 +273,7 @@ def execute(ctx, spec):
             sig = "build:operator-normal-orders-to-constant"
         ctx.disagree(sig, f"apply raised {type(exc).__name__}: {exc}", spec)
         return
-    bad = U.compare_wfn(out, want, tol=1e-9 if hk in ("fermionop", "sparse") else 0.0)
+    bad = U.compare_wfn(out, want, tol=1e-9)
     nontrivial = any(v[0] < 0 or v[1] != 0 for v in want.values()) and len(want) > 0
     ctx.case((hk, wk, norb, spec["case"]) if nontrivial else None,
              sample={**small, "n_result_dets": len(want)} if nontrivial else None)
